@@ -37,6 +37,36 @@ theorem C06_tie_node_children {V : Type} (cs : List (String × PNode V)) (d : In
     | none => simp [ih]
     | some s => simp [ih]
 
+/-- stated on the code's side, for ANY reading of a child at a date: the translated loop of
+    `ParameterNodeAtInstant.__init__` exposes a name with a value exactly when a child of that name reads as
+    that value (is not `None`) at the date — nothing else is added, nothing defined is dropped -/
+theorem C06_code_node_children_spec {C S : Type} (atI : C → Int → Option S) (cs : List (String × C)) (d : Int)
+    (k : String) (s : S) :
+    (k, s) ∈ Generated.Param.node_at_instant_children atI cs d ↔ ∃ c, (k, c) ∈ cs ∧ atI c d = some s := by
+  unfold Generated.Param.node_at_instant_children
+  rw [List.mem_filterMap]
+  constructor
+  · rintro ⟨⟨k', c⟩, hm, h⟩
+    cases hc : atI c d with
+    | none => simp [hc] at h
+    | some s' =>
+      simp [hc] at h
+      obtain ⟨rfl, rfl⟩ := h
+      exact ⟨c, hm, hc⟩
+  · rintro ⟨c, hm, hc⟩
+    exact ⟨(k, c), hm, by simp [hc]⟩
+
+/-- … and the order of the exposed names is the dict order of the children -/
+theorem C06_code_node_children_order {C S : Type} (atI : C → Int → Option S) (cs : List (String × C)) (d : Int) :
+    ((Generated.Param.node_at_instant_children atI cs d).map (·.1)).Sublist (cs.map (·.1)) := by
+  unfold Generated.Param.node_at_instant_children
+  induction cs with
+  | nil => simp
+  | cons kc r ih =>
+    rw [List.filterMap_cons]
+    cases h : atI kc.2 d with
+    | none => simp only [List.map_cons]; exact ih.cons _
+    | some s => simp only [List.map_cons]; exact ih.cons_cons _
 /-- a group with one member defined at the date and one not yet defined exposes the first only -/
 example : Generated.Param.node_at_instant_children (fun (l : List (Entry Nat)) d => pget l d)
     [("a", [⟨10, some 3⟩]), ("b", [⟨30, some 4⟩])] 15 = [("a", 3)] := by decide
